@@ -278,6 +278,8 @@ def install(kernel, encoding="utf-8"):
     ci.signal = kernel.signal
     ci.termios = kernel.termios
     ci.tty = kernel.tty
+    if hasattr(ci, "fcntl"):
+        ci.fcntl = kernel.fcntl
     th.fcntl = kernel.fcntl
     th.os = kernel.os
     th.termios = kernel.termios
@@ -300,5 +302,7 @@ def uninstall():
     import curtsies.termhelpers as th
 
     ci.os, ci.select, ci.time, ci.signal, ci.termios, ci.tty = os, select, time, signal, termios, tty
+    if hasattr(ci, "fcntl"):
+        ci.fcntl = fcntl
     th.fcntl, th.os, th.termios, th.tty = fcntl, os, termios, tty
     ci.getpreferredencoding = lambda: locale.getpreferredencoding() or sys.getdefaultencoding()
